@@ -766,3 +766,84 @@ Proof.
   cbn [pass2_loop app]. unfold Rof. f_equal. f_equal. f_equal.
   apply (p2_before true (next + start, 0) start sw next last vlen top tl 0 g0 Hwf); [lia|exact Hnext].
 Qed.
+
+(* ---------- everything the writer needs to know about one per-file step *)
+
+Lemma slice_as_skip_first (vec : list Z) sw T : 0 <= sw <= T ->
+  slice vec sw (T - sw) = skipn (Z.to_nat sw) (firstn (Z.to_nat T) vec).
+Proof. intros H. unfold slice. rewrite firstn_skipn_comm. f_equal. f_equal. lia. Qed.
+
+Theorem step_index start sw vec g0 tl top left next last T :
+  rows_wf ((g0, 0) :: tl) (zlen vec) top -> 0 <= sw < zlen vec -> 0 < left ->
+  next = get_global_sample sw ((g0, 0) :: tl) -> last = next + left ->
+  T = topidx last g0 0 tl (zlen vec) ->
+  let bl := (g0, 0) :: tl in
+  let R' := map (tr start sw) (keep last (post sw tl)) in
+  g0 + sw <= next /\ sw < T <= zlen vec /\
+  rows_wf ((next + start, 0) :: R') (T - sw) (start + last) /\
+  (forall r, rows_lookup ((next + start, 0) :: R') (slice vec sw (T - sw)) (start + r) =
+             if (next <=? r) && (r <? last) then rows_lookup bl vec r else None) /\
+  (T < zlen vec -> last <= get_global_sample T bl /\
+                   forall r, last <= r < get_global_sample T bl -> rows_lookup bl vec r = None) /\
+  (T = zlen vec -> (forall r, last <= r -> rows_lookup bl vec r = None) /\
+                   rows_end (next + start) 0 R' (T - sw) = start + rows_end g0 0 tl (zlen vec)).
+Proof.
+  intros Hwf Hsw Hl Hnext Hlast HT bl R'.
+  assert (Hn' : next = ggs_loop sw tl (g0 + (sw - 0))) by exact Hnext.
+  destruct (drop_lookup vec top sw tl g0 0 Hwf ltac:(lia)) as (D1 & D2 & D3).
+  rewrite <- Hn' in D1, D2, D3.
+  assert (Hnl : next < last) by lia.
+  pose proof (topidx_drop last (zlen vec) top sw tl g0 0 Hwf ltac:(lia) ltac:(rewrite <- Hn'; exact Hnl)) as ET.
+  rewrite <- Hn', <- HT in ET.
+  destruct (cut_lookup vec last top (post sw tl) next sw D2 Hnl) as (C1 & C2).
+  rewrite <- ET in C1, C2.
+  pose proof (topidx_range last (zlen vec) top (post sw tl) next sw D2 Hnl) as HTr. rewrite <- ET in HTr.
+  assert (ER : (next + start, 0) :: R' = map (tr start sw) ((next, sw) :: keep last (post sw tl))).
+  { unfold R'. cbn [map]. unfold tr at 2. cbn [fst snd]. rewrite Z.sub_diag. reflexivity. }
+  destruct (tr_lookup start sw (firstn (Z.to_nat T) vec) last ltac:(lia) (keep last (post sw tl)) next sw)
+    as (X1 & X2); [rewrite zlen_firstn by lia; exact C1|lia|].
+  rewrite zlen_firstn in X1 by lia.
+  split; [lia|]. split; [lia|]. split; [rewrite ER; exact X1|]. split.
+  - intros r. rewrite ER, slice_as_skip_first by lia. rewrite X2, C2.
+    destruct (Z.ltb_spec r last); destruct (Z.leb_spec next r); cbn [andb]; try reflexivity.
+    + symmetry. apply D3. lia.
+    + apply (rows_lookup_below _ _ _ _ top); [exact D2|lia].
+  - destruct (topidx_gap vec last top tl g0 0 Hwf ltac:(lia)) as (G1 & G2). rewrite <- HT in G1, G2.
+    split.
+    + intros Hlt. exact (G1 Hlt).
+    + intros Heq. split; [exact (G2 Heq)|].
+      unfold R'. rewrite (keep_all last (zlen vec) top (post sw tl) next sw D2 Hnl) by (rewrite <- ET; exact Heq).
+      pose proof (rows_end_tr start sw (zlen vec) (post sw tl) next sw) as Hre.
+      rewrite Z.sub_diag in Hre. rewrite Heq, Hre. f_equal. rewrite Hn'.
+      exact (rows_end_drop (zlen vec) top sw tl g0 0 Hwf ltac:(lia)).
+Qed.
+
+(* the model computes the cursor from the last row *)
+Lemma rev_rows_end : forall tl g o, exists g1 o1 rest,
+  rev ((g, o) :: tl) = (g1, o1) :: rest /\ forall dlen, rows_end g o tl dlen = g1 + (dlen - o1).
+Proof.
+  induction tl as [|[g' o'] tl IH]; intros g o.
+  - exists g, o, []. split; reflexivity.
+  - destruct (IH g' o') as (g1 & o1 & rest & E1 & E2). exists g1, o1, (rest ++ [(g, o)]). split.
+    + change (rev ((g, o) :: (g', o') :: tl)) with (rev ((g', o') :: tl) ++ [(g, o)]). rewrite E1. reflexivity.
+    + intros dlen. cbn [rows_end]. apply E2.
+Qed.
+
+Lemma cursor_shift (X start di stw K0 : Z) R' :
+  match rev (shift di ((K0, 0) :: R')) with
+  | (g, o) :: _ => g - start + (di + stw - o)
+  | [] => X
+  end = rows_end K0 0 R' stw - start.
+Proof.
+  destruct (rev_rows_end R' K0 0) as (g1 & o1 & rest & E1 & E2).
+  unfold shift. rewrite <- map_rev, E1. cbn [map fst snd]. rewrite E2. lia.
+Qed.
+
+Lemma cursor_noshift (X start stw K0 : Z) R' :
+  match rev ((K0, 0) :: R') with
+  | (g, o) :: _ => g - start + (0 + stw - o)
+  | [] => X
+  end = rows_end K0 0 R' stw - start.
+Proof.
+  destruct (rev_rows_end R' K0 0) as (g1 & o1 & rest & E1 & E2). rewrite E1, E2. lia.
+Qed.
